@@ -123,9 +123,10 @@ FIXED = {
  "fs:stale-metadata-after-overwrite": "b01fec8", "fs:metadata-survives-delete": "b01fec8",
  "fs:head-missing-key-code": "d6f1a3c",
  "fs:delete-nonempty-bucket": "dbc4627",
+ "fs:delete-missing-key-error": "fe75a0e",
 }
 # repairs whose text says explicitly that it describes the code before the repair
-BEFORE = {"fs:head-missing-key-code"}
+BEFORE = {"fs:head-missing-key-code", "fs:delete-missing-key-error"}
 
 lines, findings = [], []
 for i, (cls, ops, what) in enumerate(W, 1):
